@@ -52,6 +52,9 @@ class _Timer(_Watcher):
     self.stop(); self.start(callback, *args)
 
 
+MAX_TIMER_EVENTS = 100000
+
+
 class VLoop(object):
   default = True
   approx_timer_resolution = 0.0
@@ -143,6 +146,12 @@ class VLoop(object):
       e = self._next_timer()
       self._del_timer(e[2])
       due, _, t = e
+      self._fired = getattr(self, '_fired', 0) + 1
+      if self._fired > MAX_TIMER_EVENTS:
+        # the path never ends: typically the main greenlet waits for something that never happens while a periodic
+        # timer keeps virtual time running.  Give the path up (inconclusive) instead of spinning for ever.
+        self._fired = 0
+        self._give_up()
       if due > self._now: self._now = due
       cb, args = t.callback, t.args
       t._active = False
@@ -153,7 +162,20 @@ class VLoop(object):
           self.handle_error(t, *sys.exc_info())
       if once: return True
 
+  def _give_up(self):
+    import gevent
+    from . import engine as _eng
+    E = _eng.ENG
+    main = gevent.get_hub().parent
+    if E is not None and E.mode == 'sym':
+      E.inconclusive.append('virtual loop fired %d timers in one path: the harness is blocked for ever (refactored internals?)' % MAX_TIMER_EVENTS)
+      E.aborted = True
+      main.throw(_eng.PathLimit())
+    else:
+      main.throw(RuntimeError('virtual loop fired %d timers in one path: the harness is blocked for ever' % MAX_TIMER_EVENTS))
+
   def reset(self, now):
+    self._fired = 0
     self._now = now; self._callbacks = []; self._timers = []
     self._seq = itertools.count(); self.errors = []
 
